@@ -547,6 +547,62 @@ Definition iterate_fuel (st : wstate) (k : Z) (start stop step : option Z) (fuel
 Definition iterate (st : wstate) (k : Z) (start stop step : option Z) : exn + list (Z * (per tobs * tobs)) :=
   iterate_fuel st k start stop step (S (Z.to_nat (n_events st))).
 
+(* ------------------------------------------------------------------ the iterator as an object *)
+(* EventIterator with its position explicit: slice_range k, stop, step are fixed at construction;
+   _iter_counter c, _slice_start_event ss, _slice_end_event se and the loaded chunk change. *)
+Record iter := mkIt { it_k : Z; it_stop : Z; it_step : Z; it_c : Z; it_ss : Z; it_se : Z; it_data : chunk }.
+Definition it_new (st : wstate) (k : Z) (start stop step : option Z) : exn + iter :=
+  match iter_init st start stop step with
+  | inl e => inl e
+  | inr (s, e, p) => inr (mkIt k e p (-1) s s empty_chunk)
+  end.
+(* the event number the accessors and total_events_thrown compute from the position *)
+Definition it_event_number (it : iter) : Z := it_c it * it_step it + it_ss it.
+(* EventIterator.total_events_thrown (exact arithmetic) *)
+Definition it_thrown (st : wstate) (it : iter) : Z :=
+  ((it_event_number it + 1) * match thrown st with Some x => x | None => 0 end) / n_events st.
+Inductive iop := INext | IIter.
+(* what a call delivers: an event (total_events_thrown and all accessors, read from the iterator
+   after the call), StopIteration, or nothing (iter(it) returns the iterator itself) *)
+Inductive iout := OEv (thr : Z) (o : per tobs * tobs) | OStop | ONone.
+(* __next__ *)
+Definition it_next (st : wstate) (it : iter) : exn + (iter * iout) :=
+  let c1 := it_c it + 1 in
+  let ev := c1 * it_step it + it_ss it in
+  if it_stop it <=? ev then inr (mkIt (it_k it) (it_stop it) (it_step it) c1 (it_ss it) (it_se it) (it_data it), OStop)
+  else if it_se it <=? ev then
+    let se' := Z.min (ev + it_k it) (n_events st) in
+    match load_data st ev se' (it_step it) with
+    | inl e => inl e
+    | inr d => let it' := mkIt (it_k it) (it_stop it) (it_step it) 0 ev se' d in
+               inr (it', OEv (it_thrown st it') (ev_obs st d 0))
+    end
+  else let it' := mkIt (it_k it) (it_stop it) (it_step it) c1 (it_ss it) (it_se it) (it_data it) in
+       inr (it', OEv (it_thrown st it') (ev_obs st (it_data it) c1)).
+(* __iter__ returns self and leaves the position alone *)
+Definition it_op (st : wstate) (it : iter) (x : iop) : exn + (iter * iout) :=
+  match x with INext => it_next st it | IIter => inr (it, ONone) end.
+Fixpoint it_run (st : wstate) (it : iter) (ops : list iop) : exn + list iout :=
+  match ops with
+  | [] => inr []
+  | x :: r => match it_op st it x with
+              | inl e => inl e
+              | inr (it', o) => match it_run st it' r with inl e => inl e | inr os => inr (o :: os) end
+              end
+  end.
+(* f[a:b:s] (or iter(f) when whole = true) followed by a history of next / iter calls *)
+Definition history (st : wstate) (k : option Z) (whole : bool) (a b s : option Z) (ops : list iop) : exn + list iout :=
+  let n := n_events st in
+  let start := dflt a 0 in
+  let stop := dflt b n in
+  let start := if start <? 0 then start + n else start in
+  let stop := if stop <? 0 then stop + n else stop in
+  let kk := if whole then dflt k n else Z.min (dflt k n) (stop - start) in
+  match it_new st kk a b s with
+  | inl e => inl e
+  | inr it => it_run st it ops
+  end.
+
 (* HDF5Reader: slice_range None means the whole file *)
 Definition reader_k (st : wstate) (k : option Z) : Z := dflt k (n_events st).
 (* HDF5Reader.__iter__ *)
@@ -685,11 +741,13 @@ Inductive file_res :=
   | RFile (outcomes : list Z) (counters : list (list Z)) (colorder : list Z)
           (index : list (list (Z * Z))) (nrows : list Z) (exist : list bool) (thrown_attr : Z)
           (events : events_res).
-Inductive query_res := QErr (code : Z) | QOk (l : list Z) | QGenOk (items : list (list Z * Z)) (stopped : bool).
+Inductive query_res := QErr (code : Z) | QOk (l : list Z) | QGenOk (items : list (list Z * Z)) (stopped : bool)
+  | QHistOk (l : list (Z * Z)).
 Inductive query :=
   | QLen (f : nat) | QIter (f : nat) (k : option Z) | QInt (f : nat) (k : option Z) (key : Z)
   | QSlice (f : nat) (k : option Z) (a b s : option Z) | QGen (k : Z) (fs : list Z)
-  | QWf (f : nat) (i k : Z) | QWfEv (f : nat) (i : Z).
+  | QWf (f : nat) (i k : Z) | QWfEv (f : nat) (i : Z)
+  | QHist (f : nat) (k : option Z) (whole : bool) (a b s : option Z) (ops : list iop).
 
 Definition counters_of (st : wstate) : list Z := per_list (cntOf st) ++ [nidx st].
 (* run the ops; collect outcome codes and the counters at the end of each session *)
@@ -734,6 +792,11 @@ Definition run_query (sts : list wstate) (q : query) : query_res :=
   | QSlice f k a b s => fps (getitem_slice (file f) k a b s)
   | QWf f i k => match file_waveform (file f) i k with inl e => QErr (exn_code e) | inr r => QOk r end
   | QWfEv f i => match file_waveforms (file f) i with inl e => QErr (exn_code e) | inr rs => QOk (concat rs) end
+  | QHist f k whole a b s ops =>
+    match history (file f) k whole a b s ops with
+    | inl e => QErr (exn_code e)
+    | inr os => QHistOk (map (fun o => match o with OEv t ob => (fp_obs ob, t) | OStop => (-1, -1) | ONone => (-2, -2) end) os)
+    end
   | QGen k fs =>
     match filegen (map (fun i => file (Z.to_nat i)) fs) k with
     | inl e => QErr (exn_code e)
